@@ -87,7 +87,7 @@ def check(P, rep):
                 ab = checked('Add', e.val) if e.kind == 'sw' else None
                 inc = ab is not None and is_sget(ab[0], 'instance', 'Epoch') and const_int(core(ab[1])) == 1
                 zero = e.kind == 'sw' and en == '__constructor' and const_int(core(e.val)) == 0
-                rep.check(en in ('rotate_signers', '__constructor') and (inc or zero), 'C08.R4', '%s:epoch-writer' % en,
+                rep.check((en in ('rotate_signers', '__constructor') or within_entry(g, e, ['rotate_signers'])) and (inc or zero), 'C08.R4', '%s:epoch-writer' % en,
                           'Epoch is written only as stored Epoch + 1 (checked) on the rotation path, or 0 at construction', esite(g, e), e.describe())
     rep.floor('retention/epoch writers', nw, 4)
     include_rules(P, rep, 'C08.R5', 'c03', lambda o: o['rule'] in ('C03.R2', 'C03.R5'), 'every installed set is registered under exactly its installation epoch, also at construction (C03.R2/R5)', 12)
